@@ -11,12 +11,15 @@ from props import progs, asp_sem
 from itertools import permutations
 ID = "C08"
 MODULE = "PotasscoVerif.Props.C08"
-EXTRA_MODULES = ["PotasscoVerif.Props.C07"]
+EXTRA_MODULES = ["PotasscoVerif.Props.C07", "PotasscoVerif.Props.C08b"]
 THEOREMS = ["PotasscoVerif.C08.C08_heuristic_text_roundtrip", "PotasscoVerif.C08.C08_edge_text_roundtrip", "PotasscoVerif.C08.C08_nodes_injective",
-            "PotasscoVerif.C08.C08_filter_hides", "PotasscoVerif.C07.C07_assign_values"]
-PARTIAL = {"C08_roundtrip (whole programs)": "the text of each helper predicate written by the converter is proved to be parsed back to exactly its fields, node numbering to be injective, "
-           "filtering to hide exactly the recognised helpers and the external value coding to be a bijection; that whole programs keep their active modifications in every answer set "
-           "is decided by the answer-set oracle on the implementation's round trip and by model == implementation at each of the three stages"}
+            "PotasscoVerif.C08.C08_filter_hides", "PotasscoVerif.C07.C07_assign_values", "PotasscoVerif.C08.C08_symbol_spec", "PotasscoVerif.C08.C08_symbols_fold",
+            "PotasscoVerif.C08.C08_heuristics_resolved", "PotasscoVerif.C08.findAtom_remember", "PotasscoVerif.C08.symbolsLoopO_complete", "PotasscoVerif.C08.C08_table_read"]
+PARTIAL = {"C08_roundtrip (whole programs, answer-set level)": "proved: the text of each helper predicate written by the converter is parsed back to exactly its fields; reading the TEXT of a whole symbol table of ordinary symbols "
+           "and helper names (both conversions on) delivers exactly the entries' contributions — ordinary symbols shown, `_edge` helpers as acyclicity edges on their condition atoms with nodes numbered injectively by first "
+           "occurrence, `_heuristic` helpers queued and resolved at the end BY NAME to the atom recorded first under the target name (same modifier, bias, priority, condition atom), unresolvable ones dropped, helpers hidden "
+           "exactly under filtering (C08_table_read, C08_symbols_fold, C08_heuristics_resolved, findAtom_remember); the external value coding is a bijection. That whole programs keep their active modifications in every "
+           "answer set (the converter's condition atoms being equivalent to the conditions: C02) is decided by the answer-set oracle on the implementation's round trip and by model == implementation at each of the three stages"}
 BSIZES = (4096,)
 RULE = ("C02-style programs over 2..5 atoms extended with 0..4 heuristic directives (all six modifiers, bias incl. INT_MIN/INT_MAX, priority 0..2^31-1, conditions empty / single / "
         "negative / compound), 0..3 edge directives (node numbers incl. negative and repeated, arbitrary conditions), externals of all values; targets named once, twice, not at all, "
